@@ -12,9 +12,9 @@ package database
 // and the real MemDB backend with its batch.
 
 //verif:property C10
-//verif:bound utxo: pre-state of 2 pre-existing outputs, each absent or {type in 0..2, creation height < block height, spent}; block height in [1, 2^62); block = coinbase tx (1 output) + 1..2 ordinary txs (quick: 1 tx of <=2 inputs x <=2 outputs, or 2 txs of 1 input x 1 output; thorough: 2 txs of <=2 x <=2); every input spends a pre-existing output or an output of an earlier ordinary tx of the block (double spends included; by symmetry of the two pre-existing outputs the very first input spends number 0); every output is original / vote / retirement with arbitrary amount (0 included)
-//verif:bound reorganisation view: block b and sibling b' of one ordinary tx each (<= 2 inputs, 1 output) at the same height over 2 pre-existing outputs
-//verif:bound contracts: one contract hash slot; pre-state absent or registered by an earlier tx; block of 2 txs each registering contract X, Y (Y == X or different; contract body of 1..2 symbolic bytes) or nothing; sibling block with one registering tx
+//verif:bound utxo: pre-state of 2 pre-existing outputs, each absent or {type in 0..2, creation height < block height, spent}; block height in [1, 2^62); block = coinbase tx (1 output) + 1..2 ordinary txs (inputs x outputs per ordinary tx; quick: 1 tx of 1x1, 2x1 or 1x2, and 2 txs of 1x1; thorough adds 1 tx of 2x2 and 2 txs of 1x2; 2 txs of 2x1 would need more than 2 pre-existing outputs to attach and are not covered); every input spends a pre-existing output or an output of an earlier ordinary tx of the block (double spends included; by symmetry of the two pre-existing outputs the very first input spends number 0); every output is original / vote / retirement with arbitrary amount (0 included)
+//verif:bound reorganisation view: block b and sibling b' at the same height over 2 pre-existing outputs, one ordinary tx each with 1 input (quick) / 2 inputs (thorough) and 1 output; b' has its own tx or confirms b's tx again
+//verif:bound contracts: one contract hash slot; pre-state absent or registered by an earlier tx; contract bodies X, Y of 2 arbitrary bytes (Y == X possible); block of 2 txs each registering X, Y or nothing; sibling block likewise, optionally confirming one tx of b again
 //verif:assume output ids and tx ids are pairwise different concrete hashes (they are collision-free hashes in the real system); the outputs a block creates do not exist in the pre-state
 //verif:assume persisted pre-state is one saveUtxoView can have written: a spent entry is persisted only for coinbase outputs; creation heights are below the height of the block
 //verif:assume the output entry a transaction carries for a prevout has the kind of the output that was created (output ids commit to the entry kind): vote utxo <-> *bc.VoteOutput, normal and coinbase utxo <-> *bc.OriginalOutput
@@ -25,7 +25,7 @@ package database
 //verif:override github.com/golang/protobuf/proto.Unmarshal -> verifC10Unmarshal
 //verif:obligation fn=VerifC10RoundTrip args=1,1,1,-1 validate=12
 //verif:obligation fn=VerifC10RoundTrip args=1,2,1,-1;1,1,2,0;1,1,2,1;1,1,2,2;2,1,1,0;2,1,1,1;2,1,1,2
-//verif:obligation fn=VerifC10RoundTrip args=1,2,2,0;1,2,2,1;1,2,2,2;2,2,1,0;2,2,1,1;2,2,1,2;2,1,2,0;2,1,2,1;2,1,2,2 tier=thorough secs=3000 paths=2000000
+//verif:obligation fn=VerifC10RoundTrip args=1,2,2,0;1,2,2,1;1,2,2,2;2,1,2,0;2,1,2,1;2,1,2,2 tier=thorough secs=6000 paths=2000000
 //verif:obligation fn=VerifC10Verdict validate=30
 //verif:obligation fn=VerifC10Reorg args=1,0,0;1,1,0;1,2,0;1,0,1;1,1,1 validate=12
 //verif:obligation fn=VerifC10Reorg args=1,2,1
